@@ -111,7 +111,7 @@ class C02(ProgramProperty):
     id = 'C02'
     technique = ('grammar-based property testing (PyGen programs under position-stressing layouts) with structural range invariants, a differential oracle '
                  '(CPython line/col positions converted to byte offsets) and generator-side own-text extents')
-    level_text = ('~20k (quick) / 500k (thorough) generated programs rendered with multi-byte text, CR/CRLF, BOM, continuation lines, redundant parentheses, '
+    level_text = ('~50k (quick) / 500k (thorough) generated programs rendered with multi-byte text, CR/CRLF, BOM, continuation lines, redundant parentheses, '
                   'concatenated and f-strings; every range of the all-nodes-with-ranges tree is checked for containment/ordering/char boundaries, against '
                   "CPython's extent for positioned kinds and against the generator's own spans for comprehension / withitem / match_case")
     level_note = 'trusts CPython 3.11/3.12 positions (known position quirk on trailing semicolons handled by rule) and the layout renderer\'s span bookkeeping'
@@ -119,7 +119,7 @@ class C02(ProgramProperty):
             'redundant parentheses, f-string field, concatenation}; distinct by case hash')
 
     def budget(self, tier):
-        return 20000 if tier == 'quick' else 500000
+        return 50000 if tier == 'quick' else 500000
 
     def avoid(self):
         return {'C01-F1', 'C01-F2', 'C01-F3', 'C01-F4', 'C01-F22', 'C01-F23', 'C01-F24', 'C07-F1'}
